@@ -317,7 +317,13 @@ def run_shard(desc, ctx):
                     deco = rng.choice(['', '.c%d' % d, '[a%d=%d]' % (d, d), '{t%d}' % d, '.k[m=%d]' % d])
                     shape = rng.choice(['%s%s', 'x-o%d>%%s%%s' % d, '%s%s+x-s', '(%s%s)'])
                     tbl['w%d' % d] = shape % (nxt, deco)
-                for d in rng.sample(range(nlinks), min(3, nlinks)):
+                if rng.random() < 0.3:
+                    # the documented idiom of a snippet named after its own element (`img: img[src alt]`), and ANOTHER name whose definition happens to be
+                    # the same text: two snippets, not one reference cycle
+                    tbl['x-end'] = 'x-end.x'
+                    tbl['w%d' % (nlinks - 1)] = 'x-end.x'
+                    ctx.ev('chain:twin-definitions')
+                for d in rng.sample(range(nlinks), min(3, nlinks)) + [nlinks - 1]:
                     key = 'w%d' % d
                     for label, a, dd in pairs_for(key, tbl[key]):
                         if label in ('plain', 'inside', 'attrs', 'child', 'repeat', 'repeat-lorem'):
